@@ -365,7 +365,7 @@ PROPS = {
         "proof_modules": ["GrolProofs.Props.C02", "GrolProofs.Props.C08", "GrolProofs.Precedence"],
         "theorems": ["Grol.C02.witness_statement_starts_with_prefix_operator", "Grol.C02.witness_repeated_associative_operator", "Grol.C08.parser_never_panics", "Grol.C08.printer_never_panics",
                      "Grol.Generated.precedences_documented",
-                     "Grol.C02.roundtrip_partial", "Grol.C02.roundtrip_streamOf", "Grol.C02.roundtrip_partial_lex", "Grol.RT.gp_node", "Grol.RT.parse_rendered",
+                     "Grol.C02.roundtrip_partial", "Grol.C02.roundtrip_streamOf", "Grol.C02.roundtrip_partial_lex", "Grol.RT.gpx_node", "Grol.RT.parse_rendered",
                      "Grol.C02.outside_fragment_assoc", "Grol.C02.outside_fragment_stmt"],
         "suites": ["format", "printtokens"],
         "rule": _FRONT_RULE + " printtokens suite (ties the token-level rendering PrintTokens.progToks, the object of C02.roundtrip_partial, to the code): one case = one "
